@@ -110,13 +110,14 @@ RTValues(codec) ==
 (* the end) and followed by a read error; wcut: the producer's writer fails  *)
 Feeds == [chunk : {0, 1, 7}, zr : BOOLEAN, withData : BOOLEAN]
 RTCfgs(codec) ==
-  { [codec |-> codec, v |-> v, chunk |-> f.chunk, zr |-> f.zr, withData |-> f.withData, cut |-> FALSE, cutAt |-> 0, wcut |-> 0] :
+  { [codec |-> codec, v |-> v, chunk |-> f.chunk, zr |-> f.zr, withData |-> f.withData, cut |-> FALSE, cutAt |-> 0, wcut |-> 0, ekind |-> "none"] :
       v \in RTValues(codec), f \in { g \in Feeds : (g.zr => g.chunk = 1) } }
   \cup
-  { [codec |-> codec, v |-> v, chunk |-> ch, zr |-> FALSE, withData |-> FALSE, cut |-> TRUE, cutAt |-> at, wcut |-> 0] :
-      v \in RTValues(codec), ch \in {0, 1}, at \in {0, 1, 2} }
+  { [codec |-> codec, v |-> v, chunk |-> ch, zr |-> FALSE, withData |-> FALSE, cut |-> TRUE, cutAt |-> at, wcut |-> 0, ekind |-> ek] :
+      v \in RTValues(codec), ch \in {0, 1}, at \in {0, 1, 2},
+      ek \in (IF codec \in {"text", "bytes"} THEN ErrKinds ELSE {"custom", "ueof"}) }
   \cup  \* the producer's writer fails after 0 bytes / half / all but one byte of the document
-  { [codec |-> codec, v |-> v, chunk |-> 0, zr |-> FALSE, withData |-> FALSE, cut |-> FALSE, cutAt |-> 0, wcut |-> w] :
+  { [codec |-> codec, v |-> v, chunk |-> 0, zr |-> FALSE, withData |-> FALSE, cut |-> FALSE, cutAt |-> 0, wcut |-> w, ekind |-> "none"] :
       v \in RTValues(codec), w \in {1, 2, 3} }
 
 PickRT(codec) == \E r \in RTCfgs(codec) : kind' = "rt" /\ cfg' = r /\ out' = <<>>
